@@ -1077,6 +1077,8 @@ pub fn load(
         .map(|include| include.filename.into_std_path_buf())
         .collect_vec();
 
+    #[cfg(kaspar030_laze_verif)]
+    crate::verif_oracle::fault("between_parse_and_stat");
     let treestate = FileTreeState::new(filenames.iter());
     let stat_time = start.elapsed();
 
